@@ -553,11 +553,12 @@ func stressOnce(seed int64, nReaders, nWriters, txPerWriter int, withObserver bo
 
 type nopObserver struct{}
 
-func (nopObserver) OnOpen(txfile.FileStats)                     {}
-func (nopObserver) OnTxBegin(bool)                              {}
+func (nopObserver) OnOpen(txfile.FileStats)                    {}
+func (nopObserver) OnTxBegin(bool)                             {}
 func (nopObserver) OnTxClose(txfile.FileStats, txfile.TxStats) {}
 
 func runStress(rep *Report, r *rand.Rand, n int) {
+	hung := 0
 	for i := 0; i < n; i++ {
 		seed := r.Int63()
 		nr, nw := 1+r.Intn(4), 1+r.Intn(3)
@@ -569,6 +570,19 @@ func runStress(rep *Report, r *rand.Rand, n int) {
 			rep.violate(Violation{Kind: "oracle", Sig: "stress/" + failSig(fails[0]),
 				Detail: fmt.Sprintf("stress (readers=%d writers=%d seed=%d): %s", nr, nw, seed, fails[0]),
 				Replay: stressReplay{Seed: seed, Readers: nr, Writers: nw, Failures: fails}})
+			// goroutines that are stuck stay stuck: every further run would only wait for its watchdogs
+			stuck := 0
+			for _, fl := range fails {
+				if strings.Contains(fl, "do not finish") || strings.Contains(fl, "does not return") {
+					stuck++
+				}
+			}
+			if stuck > 0 {
+				if hung++; hung >= 2 {
+					rep.count("D:stress-stopped-after-hangs", 1)
+					return
+				}
+			}
 		}
 	}
 }
